@@ -140,6 +140,19 @@ func (r *Report) print(verbose bool) {
 		default:
 			nf++
 			fmt.Printf("  FAILED  %-70s %s (%s) paths=%v  -- %s\n", s.Name, s.Answer, s.Solver, s.Paths, s.Desc)
+			if os.Getenv("GOVC_EXPLAIN") != "" {
+				seen := map[string]bool{}
+				for _, o := range s.inst {
+					if o.Status != "unsat" && !seen[o.Term] {
+						seen[o.Term] = true
+						t := o.Term
+						if len(t) > 600 {
+							t = t[:600] + "..."
+						}
+						fmt.Printf("          path %d: %s\n", o.Path, t)
+					}
+				}
+			}
 		}
 	}
 	for _, k := range sortedKeys(r.FuncErrs) {
